@@ -110,7 +110,29 @@ func workC06(c *shardCtx) {
 	if c.thorough() {
 		docs = append(append([]interface{}{}, docs...), univ.Values(1, 3, univ.Js(`3`, `1`, `"b"`, `"a"`), []string{"a", "b"})...)
 	}
+	// large arrays (>= 64 elements): pooling / recycling optimisations only kick in on big inputs
+	big := func(n int) interface{} {
+		objs := make([]interface{}, n)
+		nums := make([]interface{}, n)
+		for i := 0; i < n; i++ {
+			objs[i] = map[string]interface{}{"a": float64((i * 37) % n), "b": fmt.Sprintf("s%d", (i*11)%n), "k": float64(i % 3)}
+			nums[i] = float64((i * 53) % n)
+		}
+		return map[string]interface{}{"a": objs, "b": nums}
+	}
+	docs = append(append([]interface{}{}, docs...), big(64), big(70), big(130))
 	globals := jmespath.VerifGlobals()
+	// the documents live as long as the worker: every document ever searched is re-verified after every
+	// expression, so a write that lands in a document searched EARLIER (recycled buffers) is seen too
+	persist := make([]interface{}, len(docs))
+	baseDig := make([]snap.Digest, len(docs))
+	rebuild := func(i int) {
+		persist[i] = spare(docs[i])
+		baseDig[i] = snap.Roots{{Name: "doc", V: persist[i]}}.Hash()
+	}
+	for i := range docs {
+		rebuild(i)
+	}
 	for ei, text := range exprs {
 		if !c.mine(ei) {
 			continue
@@ -122,16 +144,17 @@ func workC06(c *shardCtx) {
 			continue
 		}
 		c.add("expressions", 1)
-		for _, d := range docs {
-			doc := spare(d)
+		for di, d := range docs {
+			doc := persist[di]
 			roots := snap.Roots{{Name: "doc", V: doc}}
-			base := roots.Hash()
+			base := baseDig[di]
 			var baseLines []string
 			// per-statement monitor
 			prev, writeAt, npoints := -1, -1, 0
+			isBig := di >= len(docs)-3 // the large documents are compared before/after only (and re-verified later)
 			jmespath.VerifPoint = func(id int) {
 				npoints++
-				if writeAt < 0 && roots.Hash() != base {
+				if !isBig && writeAt < 0 && roots.Hash() != base {
 					writeAt = prev
 				}
 				prev = id
@@ -162,25 +185,49 @@ func workC06(c *shardCtx) {
 					note = "document was written during the call and restored before it returned"
 				}
 				c.report(harness.Violation{Kind: kind, Signature: "doc-write@" + site,
-					Input:    map[string]interface{}{"expression": text, "document": d},
+					Input:    map[string]interface{}{"expression": text, "document": shortDoc(d)},
 					Expected: "no write to any part of the document", Site: site,
 					Observed: note + "; first write by the statement at " + site + "; diff: " + strings.Join(snap.Diff(baseLines, roots.Lines()), "; "),
-					GoTest:   fmt.Sprintf("func TestReplay(t *testing.T) {\n\tvar doc, before interface{}\n\tjson.Unmarshal([]byte(%q), &doc)\n\tjson.Unmarshal([]byte(%q), &before)\n\tjmespath.Search(%q, doc)\n\tif !reflect.DeepEqual(doc, before) { t.Fatalf(\"document modified: %%v\", doc) }\n}", model.Canon(d), model.Canon(d), text)})
+					GoTest:   fmt.Sprintf("func TestReplay(t *testing.T) {\n\tvar doc, before interface{}\n\tjson.Unmarshal([]byte(%q), &doc)\n\tjson.Unmarshal([]byte(%q), &before)\n\tjmespath.Search(%q, doc)\n\tif !reflect.DeepEqual(doc, before) { t.Fatalf(\"document modified: %%v\", doc) }\n}", model.Canon(shortDoc(d)), model.Canon(shortDoc(d)), text)})
+				rebuild(di)
 			}
 			if g2 := (snap.Roots{{Name: "globals", V: globals}, {Name: "expr", V: jp}}).Hash(); g2 != gbase {
 				c.add("library_state_writes", 1) // C12/C13's business; counted here
 			}
 			if ei%997 == 0 && len(c.res.Samples) < 2 {
-				c.sample(map[string]interface{}{"expression": text, "document": d, "statement_points_monitored": npoints, "error_path": serr != nil})
+				c.sample(map[string]interface{}{"expression": text, "document": shortDoc(d), "statement_points_monitored": npoints, "error_path": serr != nil})
 			}
+		}
+		// every document searched so far must still be what it was (delayed writes)
+		for di := range docs {
+			if h := (snap.Roots{{Name: "doc", V: persist[di]}}).Hash(); h != baseDig[di] {
+				before := snap.Roots{{Name: "doc", V: spare(docs[di])}}.Lines()
+				after := snap.Roots{{Name: "doc", V: persist[di]}}.Lines()
+				c.report(harness.Violation{Kind: "doc-mutated", Signature: "delayed-doc-write:" + text,
+					Input:    map[string]interface{}{"expression": text, "document_index": di, "document": shortDoc(docs[di]), "note": "the document was intact when its own Search returned and was modified by a LATER Search of this expression on another document"},
+					Expected: "a document is never written, also not after the call that received it has returned",
+					Observed: "diff: " + strings.Join(snap.Diff(before, after), "; ")})
+				rebuild(di)
+			}
+			c.add("delayed_verifications", 1)
 		}
 	}
 	c.res.Notes["documents"] = len(docs)
 	c.res.Notes["expression_universe"] = len(exprs)
 }
 
+// shortDoc abbreviates the large generated documents in reports.
+func shortDoc(d interface{}) interface{} {
+	if m, ok := d.(map[string]interface{}); ok {
+		if a, ok := m["a"].([]interface{}); ok && len(a) >= 64 {
+			return fmt.Sprintf("{\"a\": [%d objects {a,b,k}], \"b\": [%d numbers]} (generated, see cmd/vsched/c06.go)", len(a), len(a))
+		}
+	}
+	return d
+}
+
 func finishC06(r *harness.Run, k map[string]int64, notes map[string]interface{}) harness.Coverage {
-	r.Rule = "every built-in with every argument shape (fields, indices, array literals, expression references) up to the weight bound, each call bare and in 14 contexts (projection right-hand side, filter condition, after a pipe, multi-select member, expression-reference body, next to a failing call so that the error path is taken), plus the core and projection universes, x documents whose arrays are unsorted with >=3 elements, duplicates, nesting and two hidden elements of spare capacity. Oracle: a deep snapshot of the document (order-sensitive, up to capacity) is compared before the call, at EVERY statement of the instrumented library during the call, and after it. Non-trivial = every (expression, document) pair (each call is monitored on all its statements); distinct by (expression, document)"
+	r.Rule = "every built-in with every argument shape (fields, indices, array literals, expression references) up to the weight bound, each call bare and in 14 contexts (projection right-hand side, filter condition, after a pipe, multi-select member, expression-reference body, next to a failing call so that the error path is taken), plus the core and projection universes, x documents whose arrays are unsorted with >=3 elements, duplicates, nesting and two hidden elements of spare capacity. plus three documents with arrays of 64-130 elements. Oracle: a deep snapshot of the document (order-sensitive, up to capacity) is compared before the call, at EVERY statement of the instrumented library during the call, and after it; the documents live as long as the worker and ALL of them are re-verified after every expression, so a write that reaches a document after its own call has returned is seen as well. Non-trivial = every (expression, document) pair (each call is monitored on all its statements); distinct by (expression, document)"
 	r.Assumptions = []string{"statement granularity: a write that is undone inside one statement is invisible", "documents are generic JSON values; typed documents are C18's"}
 	r.Evaluations = k["searches"]
 	r.Traces = k["searches"]
